@@ -40,7 +40,7 @@ T = [
  ("C01-zsh-subshell-anon-func", W("file","zsh","i0","( () { a; } )\n")),
  ("C01-dashhdoc-nested-string-indent", W("file","bash","i0","cat <<-E\n\t$(echo 'a\nb')\n\tE\n")),
  ("C01-hdoc-delim-tab", W("file","bash","i0","cat <<E\\\tF\nx\nE\tF\n")),
- ("C01-zsh-anon-function-word-body", W("file","zsh","i0","function\nb\n{}")),
+ ("C01-function-word-body", W("file","bash","i0","function f\nb\n")),
  ("C01-zsh-modifier-tab", W("file","zsh","i0","${:x\t}\n")),
  ("C01-minify-empty-block", W("file","mksh","i0,mn","{ }\n")),
  ("C01-command-first-newline", W("cmd#0","bash","i0","case x in\nesac\n")),
